@@ -62,6 +62,23 @@ Proof.
   unfold bank_send. intros H. repeat case_match; try discriminate; injection H as <-; destruct s; reflexivity.
 Qed.
 
+(* conservation inside the bank: the balances of a denomination add up to its supply *)
+Definition bank_total (s : state) (d : denom) : Z := msum (fun c => amount_of c d) (bank s).
+Definition conserved (s : state) : Prop := forall d, bank_total s d = amount_of (supply s) d.
+
+Lemma bank_total_set_bal s a d v d' :
+  bank_total (set_bal s a d v) d' = bank_total s d' + (if bool_decide (d = d') then v - bal s a d else 0).
+Proof.
+  unfold bank_total, set_bal, bal. simpl. rewrite msum_insert, amount_of_coins_set.
+  destruct (bank s !! a) as [w|] eqn:E; simpl; case_bool_decide; subst; rewrite ?amount_of_empty; lia.
+Qed.
+
+Lemma bank_send_total s f t d a s' d' : bank_send s f t d a = Ok s' -> bank_total s' d' = bank_total s d'.
+Proof.
+  unfold bank_send. intros H. repeat case_match; try discriminate; injection H as <-; [reflexivity|].
+  rewrite !bank_total_set_bal, bal_set_bal. repeat case_bool_decide; try lia; naive_solver lia.
+Qed.
+
 Lemma bank_send_to_account_inv s f t d a s' :
   bank_send_to_account s f t d a = Ok s' -> is_blocked s t = false /\ bank_send s f t d a = Ok s'.
 Proof. unfold bank_send_to_account. destruct (is_blocked s t); [discriminate|auto]. Qed.
@@ -187,4 +204,455 @@ Proof.
   intros Hok Hm H. unfold dep_to_module in H. res_inv. split.
   - apply emit_escrow. eapply dep_out_escrow; eauto.
   - simpl. rewrite (proj1 (dep_store_frame _ _ _)). eapply cfg_bank_send; eauto.
+Qed.
+
+(** * preservation of the money invariant by every operation *)
+
+From Hub Require Import Proofs.Frames.
+
+Definition msg_from (m : msg) : taddr :=
+  match m with
+  | MProvRegister f _ _ _ _ _ | MProvUpdate f _ _ _ _ _ _ | MNodeRegister f _ _ _ _ | MNodeUpdateDetails f _ _ _ _
+  | MNodeUpdateStatus f _ | MNodeSubscribe f _ _ _ _ | MPlanCreate f _ _ _ | MPlanUpdateStatus f _ _
+  | MPlanLink f _ _ | MPlanUnlink f _ _ | MPlanSubscribe f _ _ | MSubCancel f _ | MSubAllocate f _ _ _
+  | MSessStart f _ _ | MSessUpdate f _ _ _ _ _ _ | MSessEnd f _ _ | MSwap f _ _ _ => f
+  end.
+
+(* module accounts never originate transactions (DESIGN section 5.5) *)
+Definition wf_op (s : state) (o : op) : Prop :=
+  match o with
+  | OTx m => ta_bytes (msg_from m) ∉ c_blocked (cfg s)
+  | _ => True
+  end.
+
+Definition plans_ok (s : state) : Prop :=
+  map_Forall (fun _ p => pl_prov p ∉ c_blocked (cfg s)) (plan_act s) /\
+  map_Forall (fun _ p => pl_prov p ∉ c_blocked (cfg s)) (plan_inact s).
+
+Lemma plans_ok_get s id p : plans_ok s -> get_plan s id = Some p -> pl_prov p ∉ c_blocked (cfg s).
+Proof.
+  intros [Ha Hi]. unfold get_plan. destruct (plan_act s !! id) eqn:E.
+  - intros [= <-]. exact (Ha _ _ E).
+  - intros E2. exact (Hi _ _ E2).
+Qed.
+
+Record money_inv (s : state) : Prop := {
+  mi_cfg : wf_cfg (cfg s);
+  mi_escrow : escrow_ok s;
+  mi_plans : plans_ok s;
+  mi_total : conserved s }.
+
+Lemma escrow_ok_keeps T s s' :
+  keeps T s s' -> touched GBank T = false -> touched GDep T = false -> escrow_ok s -> escrow_ok s'.
+Proof.
+  intros (Hc & Hb & Hd & _) Tb Td Hok. rewrite Tb in Hb. rewrite Td in Hd. simpl in *.
+  intros d. unfold bal, dep_total. rewrite Hc, Hb, Hd. apply Hok.
+Qed.
+
+Lemma plans_keeps T s s' :
+  keeps T s s' -> touched GPl T = false -> plans_ok s -> plans_ok s'.
+Proof.
+  intros (Hc & _ & _ & _ & _ & Hp & _) Tp H. rewrite Tp in Hp. simpl in Hp.
+  destruct Hp as (Ha & Hi & _). unfold plans_ok. rewrite Hc, Ha, Hi. exact H.
+Qed.
+
+Lemma conserved_keeps T s s' :
+  keeps T s s' -> touched GBank T = false -> touched GSupply T = false -> conserved s -> conserved s'.
+Proof.
+  intros (Hc & Hb & _ & Hs & _) Tb Ts Hok. rewrite Tb in Hb. rewrite Ts in Hs. simpl in *.
+  intros d. unfold bank_total. rewrite Hb, Hs. apply Hok.
+Qed.
+
+Lemma money_inv_keeps T s s' :
+  keeps T s s' -> touched GBank T = false -> touched GDep T = false -> touched GPl T = false ->
+  touched GSupply T = false -> money_inv s -> money_inv s'.
+Proof.
+  intros Hk Tb Td Tp Ts [Hc He Hp Ht]. pose proof Hk as (Hcfg & _).
+  split.
+  - rewrite Hcfg. exact Hc.
+  - eapply escrow_ok_keeps; eauto.
+  - eapply plans_keeps; [exact Hk|exact Tp|exact Hp].
+  - eapply conserved_keeps; eauto.
+Qed.
+
+Lemma not_blocked_ne_deposit c a : wf_cfg c -> a ∉ c_blocked c -> a <> c_deposit c.
+Proof. intros Hwf Ha ->. apply Ha, Hwf. Qed.
+
+(* a bank transfer between two accounts that are not the escrow *)
+Lemma money_inv_bank_send s f t d a s' :
+  money_inv s -> f <> c_deposit (cfg s) -> t <> c_deposit (cfg s) -> bank_send s f t d a = Ok s' -> money_inv s'.
+Proof.
+  intros [Hc He Hp Ht0] Hf Ht H. pose proof (bank_send_keeps _ _ _ _ _ _ H) as Hk. pose proof Hk as (Hcfg & _).
+  split.
+  - rewrite Hcfg. exact Hc.
+  - exact (escrow_ok_bank_send _ _ _ _ _ _ He Hf Ht H).
+  - eapply plans_keeps; [exact Hk|reflexivity|exact Hp].
+  - intros d'. rewrite (bank_send_total _ _ _ _ _ _ d' H).
+    assert (Hs : supply s' = supply s) by keeps_solve. rewrite Hs. apply Ht0.
+Qed.
+
+Lemma money_inv_fund_pool s f c s' :
+  money_inv s -> f <> c_deposit (cfg s) -> fund_pool s f c = Ok s' -> money_inv s'.
+Proof.
+  intros Hi Hf. unfold fund_pool. case_match; [intros [= <-]; exact Hi|].
+  apply money_inv_bank_send; auto. apply Hi.
+Qed.
+
+Lemma money_inv_z_send s f t c s' :
+  money_inv s -> f <> c_deposit (cfg s) -> t <> c_deposit (cfg s) -> z_send s f t c = Ok s' -> money_inv s'.
+Proof.
+  intros Hi Hf Ht. unfold z_send. case_match; [intros [= <-]; exact Hi|]. apply money_inv_bank_send; auto.
+Qed.
+
+Lemma money_inv_intro s s' :
+  money_inv s -> cfg s' = cfg s -> escrow_ok s' ->
+  plan_act s' = plan_act s -> plan_inact s' = plan_inact s -> conserved s' -> money_inv s'.
+Proof.
+  intros [Hc He Hp Ht] Hcfg He' Ha Hi Ht'. split; [rewrite Hcfg; exact Hc|exact He'| |exact Ht'].
+  unfold plans_ok. rewrite Hcfg, Ha, Hi. exact Hp.
+Qed.
+
+Lemma dep_store_bank_total s a c d : bank_total (dep_store s a c) d = bank_total s d.
+Proof. unfold bank_total. rewrite (proj2 (dep_store_frame s a c)). reflexivity. Qed.
+
+Lemma conserved_dep_add s a d v s' : conserved s -> dep_add s a d v = Ok s' -> conserved s'.
+Proof.
+  intros Ht H. unfold dep_add in H. res_inv.
+  intros d'. change (bank_total x d' = amount_of (supply x) d').
+  rewrite (bank_send_total _ _ _ _ _ _ d' Hx).
+  apply bank_send_keeps in Hx. assert (Hs : supply x = supply s) by keeps_solve. rewrite Hs. apply Ht.
+Qed.
+
+Lemma conserved_dep_to_account s f t d v s' : conserved s -> dep_to_account s f t d v = Ok s' -> conserved s'.
+Proof.
+  intros Ht H. unfold dep_to_account in H. res_inv.
+  apply bank_send_to_account_inv in Hx0 as [_ Hsend].
+  intros d'. change (bank_total (dep_store x0 f x) d' = amount_of (supply (dep_store x0 f x)) d').
+  rewrite dep_store_bank_total, (bank_send_total _ _ _ _ _ _ d' Hsend).
+  apply bank_send_keeps in Hsend. pose proof (dep_store_keeps x0 f x).
+  assert (Hs : supply (dep_store x0 f x) = supply s) by keeps_solve. rewrite Hs. apply Ht.
+Qed.
+
+Lemma conserved_dep_to_module s f t d v s' : conserved s -> dep_to_module s f t d v = Ok s' -> conserved s'.
+Proof.
+  intros Ht H. unfold dep_to_module in H. res_inv.
+  intros d'. change (bank_total (dep_store x0 f x) d' = amount_of (supply (dep_store x0 f x)) d').
+  rewrite dep_store_bank_total, (bank_send_total _ _ _ _ _ _ d' Hx0).
+  apply bank_send_keeps in Hx0. pose proof (dep_store_keeps x0 f x).
+  assert (Hs : supply (dep_store x0 f x) = supply s) by keeps_solve. rewrite Hs. apply Ht.
+Qed.
+
+Lemma money_inv_dep_add s a d v s' :
+  money_inv s -> a <> c_deposit (cfg s) -> dep_add s a d v = Ok s' -> money_inv s'.
+Proof.
+  intros Hi Ha H. pose proof (dep_add_keeps _ _ _ _ _ H) as Hk.
+  destruct (dep_add_escrow _ _ _ _ _ (mi_escrow _ Hi) Ha H) as [He Hc].
+  eapply money_inv_intro; eauto; try solve [keeps_solve]. eapply conserved_dep_add; [apply Hi|eauto].
+Qed.
+
+Lemma money_inv_dep_to_account s f t d v s' :
+  money_inv s -> dep_to_account s f t d v = Ok s' -> money_inv s'.
+Proof.
+  intros Hi H. pose proof (dep_to_account_keeps _ _ _ _ _ _ H) as Hk.
+  destruct (dep_to_account_escrow _ _ _ _ _ _ (mi_escrow _ Hi) (mi_cfg _ Hi) H) as [He Hc].
+  eapply money_inv_intro; eauto; try solve [keeps_solve]. eapply conserved_dep_to_account; [apply Hi|eauto].
+Qed.
+
+Lemma money_inv_dep_to_module s f m d v s' :
+  money_inv s -> m <> c_deposit (cfg s) -> dep_to_module s f m d v = Ok s' -> money_inv s'.
+Proof.
+  intros Hi Hm H. pose proof (dep_to_module_keeps _ _ _ _ _ _ H) as Hk.
+  destruct (dep_to_module_escrow _ _ _ _ _ _ (mi_escrow _ Hi) Hm H) as [He Hc].
+  eapply money_inv_intro; eauto; try solve [keeps_solve]. eapply conserved_dep_to_module; [apply Hi|eauto].
+Qed.
+
+Lemma money_inv_z_dep_add s a c s' :
+  money_inv s -> a <> c_deposit (cfg s) -> z_dep_add s a c = Ok s' -> money_inv s'.
+Proof. intros Hi Ha. unfold z_dep_add. case_match; [intros [= <-]; exact Hi|]. apply money_inv_dep_add; auto. Qed.
+Lemma money_inv_z_dep_to_account s f t c s' : money_inv s -> z_dep_to_account s f t c = Ok s' -> money_inv s'.
+Proof. intros Hi. unfold z_dep_to_account. case_match; [intros [= <-]; exact Hi|]. apply money_inv_dep_to_account; auto. Qed.
+Lemma money_inv_z_dep_to_module s f m c s' :
+  money_inv s -> m <> c_deposit (cfg s) -> z_dep_to_module s f m c = Ok s' -> money_inv s'.
+Proof. intros Hi Hm. unfold z_dep_to_module. case_match; [intros [= <-]; exact Hi|]. apply money_inv_dep_to_module; auto. Qed.
+
+(* record updates that leave bank, deposits and the plans alone *)
+Ltac money_frame := eapply money_inv_keeps; [|reflexivity|reflexivity|reflexivity|reflexivity|eassumption].
+
+Definition NONMONEY : list grp := [GPv; GNode; GSub; GSess; GPar; GSwap; GMint; GNow].
+(* the goal is [money_inv (updates of sprev)] *)
+Ltac money_updates sprev := eapply (money_inv_keeps NONMONEY sprev); [keeps_solve|reflexivity|reflexivity|reflexivity|reflexivity|].
+
+Lemma bank_mint_bal s m d a s' :
+  bank_mint s m d a = Ok s' -> forall x d', bal s' x d' = bal s x d' + delta (bool_decide (m = x /\ d = d')) a.
+Proof.
+  unfold bank_mint. case_match; [discriminate|]. intros [= <-] x d'. rewrite bal_set_bal.
+  unfold bal at 1 2. simpl. fold (bal s m d). fold (bal s x d'). solve_delta.
+Qed.
+
+Lemma money_inv_bank_mint s m d a s' :
+  money_inv s -> m <> c_deposit (cfg s) -> bank_mint s m d a = Ok s' -> money_inv s'.
+Proof.
+  intros Hi Hm H. pose proof (bank_mint_keeps _ _ _ _ _ H) as Hk. pose proof (bank_mint_bal _ _ _ _ _ H) as Hb.
+  assert (Hc : cfg s' = cfg s) by keeps_solve.
+  assert (Hd : deposits s' = deposits s) by keeps_solve.
+  eapply money_inv_intro; eauto; try solve [keeps_solve].
+  - intros d'. rewrite Hc, Hb. rewrite (dep_total_frame s s' d' Hd). rewrite <- (mi_escrow _ Hi d'). solve_delta.
+  - unfold bank_mint in H. destruct (a <=? 0) eqn:E; [discriminate|]. injection H as <-.
+    intros d'. rewrite bank_total_set_bal. unfold bank_total, bal. simpl.
+    fold (bank_total s d'). fold (bal s m d). rewrite amount_of_coins_add, <- (mi_total _ Hi d').
+    case_bool_decide; lia.
+Qed.
+
+Section handlers.
+  Variable s : state.
+  Hypothesis Hi : money_inv s.
+
+  Lemma mi_from_ne a : a ∉ c_blocked (cfg s) -> a <> c_deposit (cfg s).
+  Proof. apply not_blocked_ne_deposit, Hi. Qed.
+
+  Lemma money_h_prov_register from n i w d s' :
+    ta_bytes from ∉ c_blocked (cfg s) -> h_prov_register s from n i w d = Ok s' -> money_inv s'.
+  Proof.
+    intros Hf H. unfold h_prov_register in H. res_inv.
+    apply (money_inv_fund_pool _ _ _ _ Hi (mi_from_ne _ Hf)) in Hx0.
+    apply set_provider_keeps in Hx1. money_updates x0. exact Hx0.
+  Qed.
+
+  Lemma money_h_node_register from gb hr url s' :
+    ta_bytes from ∉ c_blocked (cfg s) -> h_node_register s from gb hr url = Ok s' -> money_inv s'.
+  Proof.
+    intros Hf H. unfold h_node_register in H. res_inv.
+    apply (money_inv_fund_pool _ _ _ _ Hi (mi_from_ne _ Hf)) in Hx2.
+    apply set_node_keeps in Hx3. money_updates x2. exact Hx2.
+  Qed.
+
+  Lemma money_create_sub_for_node acc nd g h dn s' id :
+    acc ∉ c_blocked (cfg s) -> create_sub_for_node s acc nd g h dn = Ok (s', id) -> money_inv s'.
+  Proof.
+    intros Hf H. unfold create_sub_for_node in H. res_inv;
+    match goal with Hz : z_dep_add s acc _ = Ok ?y |- _ =>
+      apply (money_inv_z_dep_add _ _ _ _ Hi (mi_from_ne _ Hf)) in Hz; money_updates y; exact Hz end.
+  Qed.
+
+  Lemma money_h_plan_create from du g pr s' :
+    ta_bytes from ∉ c_blocked (cfg s) -> h_plan_create s from du g pr = Ok s' -> money_inv s'.
+  Proof.
+    intros Hf H. unfold h_plan_create in H. res_inv. unfold set_plan in Hx0. simpl in Hx0. injection Hx0 as <-.
+    destruct Hi as [Hc He [Hpa Hpi] Ht]. split; [exact Hc| | |intros d'; exact (Ht d')].
+    - intros d'. exact (He d').
+    - split; simpl; [exact Hpa|]. apply map_Forall_insert_2; [exact Hf|exact Hpi].
+  Qed.
+
+  Lemma plans_ok_set_plan s1 p s2 :
+    cfg s1 = cfg s -> plans_ok s1 -> pl_prov p ∉ c_blocked (cfg s) -> set_plan s1 p = Ok s2 -> plans_ok s2.
+  Proof.
+    intros Hc [Ha Hb] Hp H. unfold set_plan in H. unfold plans_ok in *. rewrite Hc in *.
+    destruct (pl_status p); try discriminate; injection H as <-; simpl; rewrite ?Hc; split; auto;
+    apply map_Forall_insert_2; auto.
+  Qed.
+
+  Lemma money_h_plan_update_status from id st s' : h_plan_update_status s from id st = Ok s' -> money_inv s'.
+  Proof.
+    intros H. unfold h_plan_update_status in H. res_inv.
+    assert (Hprov : pl_prov p ∉ c_blocked (cfg s)) by (eapply plans_ok_get; [apply Hi|eauto]).
+    match type of Hx0 with set_plan ?ss _ = _ => remember ss as s1 eqn:Es1 end.
+    assert (H1 : cfg s1 = cfg s /\ bank s1 = bank s /\ deposits s1 = deposits s /\ plans_ok s1 /\ supply s1 = supply s).
+    { subst s1. destruct Hi as [_ _ [Ha Hb] _]. unfold plans_ok.
+      repeat case_bool_decide; simpl; repeat split; auto; apply map_Forall_delete; auto. }
+    clear Es1. destruct H1 as (Hc1 & Hb1 & Hd1 & Hp1 & Hs1).
+    pose proof (set_plan_keeps _ _ _ Hx0) as Hk.
+    assert (Hc2 : cfg x0 = cfg s) by (destruct Hk as [Hk _]; congruence).
+    assert (Hb2 : bank x0 = bank s /\ deposits x0 = deposits s /\ supply x0 = supply s) by (keeps_unfold; simpl in *; intuition congruence).
+    destruct Hb2 as (Hb2 & Hd2 & Hs2).
+    split.
+    - simpl. rewrite Hc2. apply Hi.
+    - intros d'. unfold bal, dep_total. simpl. rewrite Hb2, Hd2, Hc2. apply (mi_escrow _ Hi d').
+    - change (plans_ok x0). refine (plans_ok_set_plan s1 _ x0 Hc1 Hp1 _ Hx0). exact Hprov.
+    - intros d'. unfold bank_total. simpl. rewrite Hb2, Hs2. apply (mi_total _ Hi d').
+  Qed.
+
+  Lemma money_h_plan_link from id nd s' : h_plan_link s from id nd = Ok s' -> money_inv s'.
+  Proof.
+    intros H. unfold h_plan_link in H. res_inv. destruct Hi as [Hc He Hp Ht]. split; [exact Hc|intros d'; exact (He d')|exact Hp|intros d'; exact (Ht d')].
+  Qed.
+  Lemma money_h_plan_unlink from id nd s' : h_plan_unlink s from id nd = Ok s' -> money_inv s'.
+  Proof.
+    intros H. unfold h_plan_unlink in H. res_inv. destruct Hi as [Hc He Hp Ht]. split; [exact Hc|intros d'; exact (He d')|exact Hp|intros d'; exact (Ht d')].
+  Qed.
+
+  Lemma money_create_sub_for_plan acc pid dn s' id :
+    acc ∉ c_blocked (cfg s) -> create_sub_for_plan s acc pid dn = Ok (s', id) -> money_inv s'.
+  Proof.
+    intros Hf H. unfold create_sub_for_plan in H. res_inv.
+    assert (Hprov : pl_prov p ∉ c_blocked (cfg s)) by (eapply plans_ok_get; [apply Hi|eauto]).
+    pose proof (z_send_keeps _ _ _ _ _ Hx1) as Hk1.
+    assert (Hc1 : cfg x1 = cfg s) by keeps_solve.
+    apply (money_inv_z_send _ _ _ _ _ Hi (mi_from_ne _ Hf) (wf_fee_ne _ (mi_cfg _ Hi))) in Hx1.
+    apply (money_inv_z_send _ _ _ _ _ Hx1) in Hx3; [| rewrite Hc1; apply mi_from_ne; exact Hf | rewrite Hc1; apply mi_from_ne; exact Hprov].
+    money_updates x3. exact Hx3.
+  Qed.
+
+  Lemma money_h_swap from h r a s' : h_swap s from h r a = Ok s' -> money_inv s'.
+  Proof.
+    intros H. unfold h_swap in H. res_inv.
+    pose proof (bank_mint_keeps _ _ _ _ _ Hx4) as Hk1.
+    assert (Hc1 : cfg x4 = cfg s) by keeps_solve.
+    apply (money_inv_bank_mint _ _ _ _ _ Hi (wf_swap_ne _ (mi_cfg _ Hi))) in Hx4.
+    apply bank_send_to_account_inv in Hx5 as [Hbl Hsend].
+    apply (money_inv_bank_send _ _ _ _ _ _ Hx4) in Hsend.
+    - money_updates x5. exact Hsend.
+    - rewrite Hc1. apply (wf_swap_ne _ (mi_cfg _ Hi)).
+    - rewrite Hc1. intros Heq. unfold is_blocked in Hbl. apply bool_decide_eq_false in Hbl. apply Hbl.
+      rewrite Hc1, Heq. apply (mi_cfg _ Hi).
+  Qed.
+
+End handlers.
+
+(** * hooks *)
+
+(* [money_inv] of a state that is some already known state plus non-money record updates *)
+Ltac money_known :=
+  first [ assumption
+        | match goal with Hk : money_inv ?sp |- _ => solve [money_updates sp; exact Hk] end ].
+
+(* push the invariant through the next escrow primitive found in the context *)
+Ltac money_prim :=
+  match goal with
+  | H : z_dep_to_module ?s1 _ (c_feecoll (cfg ?s0)) _ = Ok ?s2 |- _ =>
+      let Hi1 := fresh "Hmi" in assert (Hi1 : money_inv s1) by money_known;
+      apply (money_inv_z_dep_to_module _ _ _ _ _ Hi1) in H; [|simpl; apply (wf_fee_ne _ (mi_cfg _ Hi1))]
+  | H : z_dep_to_account ?s1 _ _ _ = Ok ?s2 |- _ =>
+      let Hi1 := fresh "Hmi" in assert (Hi1 : money_inv s1) by money_known;
+      apply (money_inv_z_dep_to_account _ _ _ _ _ Hi1) in H
+  | H : dep_to_account ?s1 _ _ _ _ = Ok ?s2 |- _ =>
+      let Hi1 := fresh "Hmi" in assert (Hi1 : money_inv s1) by money_known;
+      apply (money_inv_dep_to_account _ _ _ _ _ _ Hi1) in H
+  end.
+
+Lemma money_payout_step s e s' : money_inv s -> payout_step s e = Ok s' -> money_inv s'.
+Proof.
+  intros Hi H. unfold payout_step in H. res_inv. repeat money_prim. goal_cases; money_known.
+Qed.
+
+Lemma money_session_inactive_hook s sid acc nd b s' :
+  money_inv s -> session_inactive_hook s sid acc nd b = Ok s' -> money_inv s'.
+Proof.
+  intros Hi H. unfold session_inactive_hook in H. res_inv; repeat money_prim; try exact Hi; goal_cases; money_known.
+Qed.
+
+Lemma money_session_expire_one s e s' : money_inv s -> session_expire_one s e = Ok s' -> money_inv s'.
+Proof.
+  intros Hi H. unfold session_expire_one in H. res_inv; [money_known|].
+  match goal with H : session_inactive_hook ?s1 _ _ _ _ = Ok _ |- _ =>
+    assert (Hi1 : money_inv s1) by money_known; apply (money_session_inactive_hook _ _ _ _ _ _ Hi1) in H end.
+  money_known.
+Qed.
+
+Lemma money_sub_pending_hook s id s' : money_inv s -> sub_pending_hook s id = Ok s' -> money_inv s'.
+Proof. intros Hi H. apply sub_pending_hook_keeps in H. eapply money_inv_keeps; eauto. Qed.
+
+Lemma money_sub_refund s sb s' : money_inv s -> sub_refund s sb = Ok s' -> money_inv s'.
+Proof.
+  intros Hi H. unfold sub_refund in H. res_inv; repeat money_prim; try exact Hi; goal_cases; money_known.
+Qed.
+
+Lemma money_sub_expire_one s e s' : money_inv s -> sub_expire_one s e = Ok s' -> money_inv s'.
+Proof.
+  intros Hi H. unfold sub_expire_one in H. res_inv.
+  - match goal with H : sub_pending_hook ?s1 _ = Ok _ |- _ =>
+      assert (Hi1 : money_inv s1) by money_known; apply (money_sub_pending_hook _ _ _ Hi1) in H end.
+    match goal with H : detach_payout ?s1 _ _ = Ok _ |- _ =>
+      assert (Hi2 : money_inv s1) by (pose proof (sub_make_pending_keeps x s0); eapply money_inv_keeps; eauto);
+      apply detach_payout_keeps in H; [|discriminate]; eapply money_inv_keeps; eauto end.
+  - match goal with H : sub_refund ?s1 _ = Ok _ |- _ =>
+      assert (Hi1 : money_inv s1) by money_known; apply (money_sub_refund _ _ _ Hi1) in H end.
+    match goal with H : sub_delete_payout ?s1 _ = Ok _ |- _ =>
+      apply sub_delete_payout_keeps in H; eapply money_inv_keeps; [exact H|reflexivity|reflexivity|reflexivity|reflexivity|] end.
+    pose proof (sub_cleanup_keeps x s0) as Hc. money_updates (sub_cleanup x s0).
+    eapply money_inv_keeps; eauto.
+Qed.
+
+Lemma money_begin_block s s' : money_inv s -> begin_block s = Ok s' -> money_inv s'.
+Proof.
+  intros Hi H. unfold begin_block in H. res_inv.
+  apply mint_begin_block_keeps in Hx. assert (Hi1 : money_inv x) by (eapply money_inv_keeps; eauto).
+  unfold sub_begin_block in H. eapply (rfold_inv money_inv); [|exact Hi1|exact H].
+  intros; eapply money_payout_step; eauto.
+Qed.
+
+Lemma money_end_block s s' : money_inv s -> end_block s = Ok s' -> money_inv s'.
+Proof.
+  intros Hi H. unfold end_block in H. res_inv.
+  apply node_end_block_keeps in Hx. assert (Hi1 : money_inv x) by (eapply money_inv_keeps; eauto).
+  assert (Hi2 : money_inv x0).
+  { unfold session_end_block in Hx0. eapply (rfold_inv money_inv); [|exact Hi1|exact Hx0].
+    intros; eapply money_session_expire_one; eauto. }
+  unfold sub_end_block in H. eapply (rfold_inv money_inv); [|exact Hi2|exact H].
+  intros; eapply money_sub_expire_one; eauto.
+Qed.
+
+Lemma money_handle s m s' :
+  money_inv s -> ta_bytes (msg_from m) ∉ c_blocked (cfg s) -> handle s m = Ok s' -> money_inv s'.
+Proof.
+  intros Hi Hf H. destruct m; simpl in *.
+  - eapply money_h_prov_register; eauto.
+  - apply h_prov_update_keeps in H. eapply money_inv_keeps; eauto.
+  - eapply money_h_node_register; eauto.
+  - apply h_node_update_details_keeps in H. eapply money_inv_keeps; eauto.
+  - apply h_node_update_status_keeps in H. eapply money_inv_keeps; eauto.
+  - unfold h_node_subscribe in H. res_inv.
+    match goal with H : create_sub_for_node _ _ _ _ _ _ = Ok _ |- _ => eapply money_create_sub_for_node in H; eauto end.
+    money_known.
+  - eapply money_h_plan_create; eauto.
+  - eapply money_h_plan_update_status; eauto.
+  - eapply money_h_plan_link; eauto.
+  - eapply money_h_plan_unlink; eauto.
+  - unfold h_plan_subscribe in H. res_inv.
+    match goal with H : create_sub_for_plan _ _ _ _ = Ok _ |- _ => eapply money_create_sub_for_plan in H; eauto end.
+    money_known.
+  - apply h_sub_cancel_keeps in H. eapply money_inv_keeps; eauto.
+  - apply h_sub_allocate_keeps in H. eapply money_inv_keeps; eauto.
+  - apply h_sess_start_keeps in H. eapply money_inv_keeps; eauto.
+  - apply h_sess_update_keeps in H. eapply money_inv_keeps; eauto.
+  - apply h_sess_end_keeps in H. eapply money_inv_keeps; eauto.
+  - eapply money_h_swap; eauto.
+Qed.
+
+(* the invariant is inductive *)
+Theorem money_inv_step s o s' : money_inv s -> wf_op s o -> step s o = OOk s' -> money_inv s'.
+Proof.
+  intros Hi Hwf. unfold step. destruct o.
+  - destruct (begin_block _) eqn:H; try discriminate. intros [= <-].
+    eapply money_begin_block; [|exact H]. money_updates s. exact Hi.
+  - unfold run_tx. destruct (validate_basic m); [|discriminate].
+    destruct (handle _ m) eqn:H; try discriminate. intros [= <-].
+    eapply money_handle; [| |exact H]; [money_updates s; exact Hi|exact Hwf].
+  - intros [= <-]. apply (fold_left_inv money_inv).
+    + intros x c Hx. pose proof (apply_pchange_keeps x c). eapply money_inv_keeps; eauto.
+    + money_updates s. exact Hi.
+  - destruct (end_block _) as [se| |] eqn:H; try discriminate. intros [= <-].
+    eapply money_end_block in H; [|money_updates s; exact Hi]. money_updates se. exact H.
+Qed.
+
+Lemma money_inv_clear s : money_inv s -> money_inv (clear_events s).
+Proof. intros Hi. unfold clear_events. money_updates s. exact Hi. Qed.
+
+(* every reachable state of every well-formed history satisfies it *)
+Fixpoint wf_ops (s : state) (ops : list op) : Prop :=
+  match ops with
+  | [] => True
+  | o :: ops' => wf_op s o /\ wf_ops s ops'
+  end.
+
+Theorem money_inv_run ops : forall s i s',
+  money_inv s -> wf_ops s ops -> run_from s ops i = RunOk s' -> money_inv s'.
+Proof.
+  induction ops as [|o ops IH]; simpl; intros s i s' Hi Hwf H.
+  - injection H as <-. exact Hi.
+  - destruct Hwf as [Hw1 Hw2]. destruct (step s o) eqn:E; try discriminate.
+    + pose proof (step_cfg _ _ _ E) as Hc. eapply IH; [eapply money_inv_step; eauto| |exact H].
+      clear -Hw2 Hc. induction ops; simpl in *; auto. destruct Hw2. split; auto.
+      destruct a; simpl in *; auto. rewrite Hc. auto.
+    + eapply IH; [apply money_inv_clear; exact Hi| |exact H].
+      clear -Hw2. induction ops; simpl in *; auto. destruct Hw2. split; auto.
 Qed.
